@@ -1982,6 +1982,12 @@ func (s *shard) DropMeasurement(ctx context.Context, name string) error {
 		return fmt.Errorf("async replay wal not finish")
 	}
 
+	// Close holds s.mu exclusively; a drop that waited behind it must not touch the
+	// data files Close has just released (tsspFile.Remove dereferences the closed reader).
+	if s.closed != nil && s.closed.Closed() {
+		return errno.NewError(errno.ErrShardClosed, s.ident.ShardID)
+	}
+
 	// flush measurement data in mem
 	s.ForceFlush()
 
